@@ -70,6 +70,19 @@ contract(D + "tcell.py::TCell.inspect", "C17", params={"peptide": "obj:MHCPeptid
          })
 
 RULE_LOOP = "for rule in self.rules"
+# the history-carrying state of the watcher (the statement quantifies over resets, false-alarm resets and manual flags): a handled response
+# consumes every pending second signal -- the manual flag and the anomaly streak -- so that a later lone anomaly is again unconfirmed
+contract(D + "tcell.py::TCell.reset", "C17", raises=[],
+         ensures={"no-second-signal-survives-a-handled-response": "self.manual_flag is None and self.anomaly_count == 0 and self.state.signal2 == Signal2.NONE "
+                                                                  "and self.state.signal1 == Signal1.SELF",
+                  "desensitisation-count-kept": "self.anergy_count == old(self).anergy_count"})
+contract(D + "tcell.py::TCell.reset_without_confirmation", "C17", raises=[],
+         ensures={"streak-cleared": "self.anomaly_count == 0 and self.state.signal2 == Signal2.NONE and self.state.signal1 == Signal1.SELF",
+                  "false-alarm-counts-towards-anergy": "self.anergy_count == old(self).anergy_count + "
+                                                       "(1 if (old(self).state.signal1 == Signal1.NON_SELF and old(self).state.signal2 == Signal2.NONE) else 0)"})
+contract(D + "tcell.py::TCell.flag_manually", "C17", raises=[],
+         ensures={"flag-recorded-only": "self.manual_flag == reason and self.anomaly_count == old(self).anomaly_count and self.anergy_count == old(self).anergy_count"})
+
 contract(D + "treg.py::RegulatoryTCell.evaluate", "C17",
          params={"response": "obj:ImmuneResponse", "record": "obj:ToleranceRecord"},
          # well-formed responses (TCell.inspect's response table): a merely SUSPICIOUS response recommends at most MONITOR
